@@ -29,8 +29,9 @@ def inline_builtin(expr: Expression, rules: Mapping[str, Rule]) -> Expression:  
 def inline_silent_rules(expr: Expression, rules: Mapping[str, Rule]) -> Expression:
     """Inline silent rules."""
     if isinstance(expr, Identifier):
-        rule = rules[expr.value]
+        # A reference to an undefined rule is left alone.
+        rule = rules.get(expr.value)
         # A tagged reference must keep its tag for the pairs the rule produces.
-        if rule.modifier & SILENT and not expr.tag:
+        if rule and rule.modifier & SILENT and not expr.tag:
             return rule.expression
     return expr
